@@ -3,6 +3,8 @@ import gen
 import lib
 import progen
 import compilers
+import os
+from props import c02_passes
 
 LEVEL = "proof"
 
@@ -45,6 +47,11 @@ def run(chk):
     if not ok:
         chk.fail("proof", "harness-build", {}, out[-1500:])
         return
+    only = os.environ.get("VERIF_C02_ONLY", "")      # development aid: "passes" | "differential"
+    if only == "passes" or chk.replay_cases is not None:
+        c02_passes.run(chk)
+        if only == "passes" or any((c.get("case", {}) or {}).get("sub") == "passes" for c in [chk.replay_cases or {}]):
+            return
     n = 40 if quick else 1500
     for d in progen.MODERN:
         progs = compilers.gen_programs(rng, d, n, nargs=3)
@@ -87,6 +94,8 @@ def run(chk):
     chk.cov["modelled_not_verified"] = [
         "CSE, de-inlining, optimize_expr folding, fe_opt, strategy optimiser: differential only",
     ]
+    if chk.replay_cases is None:
+        c02_passes.run(chk)      # the CLVM-level passes: kernel-checked theorems + correspondence + oracle
 
 
 def classify_pair(p, e1, prog1, e2, prog2, x, y):
